@@ -5,15 +5,42 @@ From Ferrous Require Import Base.Bytes Model.Types Model.PubSub Proofs.BytesFact
 Open Scope Z_scope.
 
 (** Declarative glob: [*] = 42 any (possibly empty) string, [?] = 63 any one byte, [\x] = 92 x
-    the byte x, a trailing backslash stands for itself, any other byte for itself. *)
+    the byte x, a trailing backslash stands for itself, [[...]] = 91 ... 93 a character class
+    standing for one byte, any other byte for itself.
+
+    A class runs from the '[' to the FIRST ']' after it (so ']' cannot be a member and a
+    backslash inside a class is an ordinary member); what is between them ([inner]) is a list
+    of items read left to right: `x-y` (when at least three bytes remain and the middle one
+    is '-') is the range of bytes x..y, any other byte is itself.  A leading '^' negates.
+    `[]` accepts nothing, `[^]` every byte.  A '[' without any ']' after it matches nothing
+    (there is no constructor for it). *)
+Fixpoint class_items (body : bytes) : list (Z * Z) :=
+  match body with
+  | [] => []
+  | lo :: rest =>
+      match rest with
+      | m :: hi :: rest' => if m =? 45 then (lo, hi) :: class_items rest' else (lo, lo) :: class_items rest
+      | _ => (lo, lo) :: class_items rest
+      end
+  end.
+Definition in_class (body : bytes) (c : Z) : Prop :=
+  exists lo hi, In (lo, hi) (class_items body) /\ lo <= c <= hi.
+Definition class_accepts (inner : bytes) (c : Z) : Prop :=
+  match inner with
+  | [] => False
+  | c0 :: body => if c0 =? 94 then ~ in_class body c else in_class inner c
+  end.
+
 Inductive GlobSpec : bytes -> bytes -> Prop :=
 | GS_nil : GlobSpec [] []
 | GS_any : forall p c s, GlobSpec p s -> GlobSpec (63 :: p) (c :: s)
 | GS_star0 : forall p s, GlobSpec p s -> GlobSpec (42 :: p) s
 | GS_star1 : forall p c s, GlobSpec (42 :: p) s -> GlobSpec (42 :: p) (c :: s)
+| GS_class : forall inner p c s, ~ In 93 inner -> class_accepts inner c -> GlobSpec p s ->
+    GlobSpec (91 :: inner ++ 93 :: p) (c :: s)
 | GS_esc : forall p c s, GlobSpec p s -> GlobSpec (92 :: c :: p) (c :: s)
 | GS_esc_end : GlobSpec [92] [92]
-| GS_lit : forall p c s, c <> 63 -> c <> 42 -> c <> 92 -> GlobSpec p s -> GlobSpec (c :: p) (c :: s).
+| GS_lit : forall p c s, c <> 63 -> c <> 42 -> c <> 91 -> c <> 92 -> GlobSpec p s -> GlobSpec (c :: p) (c :: s).
 
 (** ---- list facts ---- *)
 Lemma app_suffix {A} : forall (x y a b : list A),
@@ -56,12 +83,82 @@ Proof.
     + destruct (Z.eqb_spec c 42) as [->|Hn]; [|discriminate]. apply GS_star0. auto.
 Qed.
 
+(** ---- classes ---- *)
+Lemma split_close_spec : forall p a b, split_close p = Some (a, b) -> p = a ++ 93 :: b /\ ~ In 93 a.
+Proof.
+  induction p as [|c r IH]; intros a b; cbn [split_close]; [discriminate|].
+  destruct (Z.eqb_spec c 93) as [->|N].
+  - intros H; injection H as <- <-. split; [reflexivity | intros []].
+  - destruct (split_close r) as [[a' b']|]; [|discriminate].
+    intros H; injection H as <- <-. destruct (IH a' b' eq_refl) as [-> Hn].
+    split; [reflexivity|]. intros [E|E]; [congruence | exact (Hn E)].
+Qed.
+Lemma split_close_app : forall a b, ~ In 93 a -> split_close (a ++ 93 :: b) = Some (a, b).
+Proof.
+  induction a as [|c a IH]; intros b Hn; cbn [app split_close].
+  - reflexivity.
+  - destruct (Z.eqb_spec c 93) as [->|N]; [exfalso; apply Hn; left; reflexivity|].
+    rewrite IH; [reflexivity|]. intros E. apply Hn. right. exact E.
+Qed.
+
+Lemma class_loop_iff : forall n body c, (length body <= n)%nat -> class_loop body c = true <-> in_class body c.
+Proof.
+  unfold in_class.
+  induction n as [|n IH]; intros body c L.
+  - destruct body; [|simpl in L; lia]. cbn. split; [discriminate | intros (lo & hi & [] & _)].
+  - destruct body as [|lo rest]; [cbn; split; [discriminate | intros (l & h & [] & _)]|].
+    assert (Single : (if c =? lo then true else class_loop rest c) = true <->
+                     exists l h, In (l, h) ((lo, lo) :: class_items rest) /\ l <= c <= h).
+    { destruct (Z.eqb_spec c lo) as [->|N].
+      - split; [|reflexivity]. intros _. exists lo, lo. split; [left; reflexivity | lia].
+      - rewrite (IH rest c) by (simpl in L; lia). split.
+        + intros (l & h & Hin & Hr). exists l, h. split; [right; exact Hin | exact Hr].
+        + intros (l & h & [E|Hin] & Hr); [injection E as <- <-; lia|]. exists l, h. split; assumption. }
+    destruct rest as [|m [|hi rest']]; try exact Single.
+    cbn [class_loop class_items]. destruct (Z.eqb_spec m 45) as [->|N]; [|exact Single].
+    destruct ((lo <=? c) && (c <=? hi)) eqn:E.
+    + split; [|reflexivity]. intros _. exists lo, hi. split; [left; reflexivity | lia].
+    + rewrite (IH rest' c) by (simpl in L; lia). split.
+      * intros (l & h & Hin & Hr). exists l, h. split; [right; exact Hin | exact Hr].
+      * intros (l & h & [E2|Hin] & Hr); [injection E2 as <- <-; lia|]. exists l, h. split; assumption.
+Qed.
+
+Lemma class_ok_iff inner c : class_ok inner c = true <-> class_accepts inner c.
+Proof.
+  unfold class_ok, class_accepts. destruct inner as [|c0 body].
+  - cbn. split; [discriminate | intros []].
+  - destruct (c0 =? 94); cbn [tl].
+    + destruct (class_loop body c) eqn:E; cbn.
+      * split; [discriminate|]. intros H. exfalso. apply H. apply (class_loop_iff _ _ _ (le_n _)). exact E.
+      * split; [|reflexivity]. intros _ H. apply (class_loop_iff _ _ _ (le_n _)) in H. congruence.
+    + rewrite <- (class_loop_iff _ (c0 :: body) c (le_n _)).
+      destruct (class_loop (c0 :: body) c); cbn; split; congruence.
+Qed.
+
+(** the '[' arm *)
+Lemma try_class p' tc : ps_try (91 :: p') tc =
+  match split_close p' with
+  | Some (inner, rest) => if class_ok inner tc then PAdvance rest else PFail
+  | None => PFail
+  end.
+Proof. reflexivity. Qed.
+
+(** a pattern starting with '[' matches only through its class *)
+Lemma class_inv p' s : GlobSpec (91 :: p') s ->
+  exists inner p c s', p' = inner ++ 93 :: p /\ s = c :: s' /\ ~ In 93 inner /\ class_accepts inner c /\ GlobSpec p s'.
+Proof.
+  intros G. inversion G; subst; try congruence.
+  exists inner, p, c, s0. repeat split; assumption.
+Qed.
+
 (** ---- one attempt ---- *)
 Lemma try_star p tc p2 : ps_try p tc = PStar p2 -> p = 42 :: p2.
 Proof.
   unfold ps_try. destruct p as [|pc p']; [discriminate|].
   destruct (Z.eqb_spec pc 63); [discriminate|].
   destruct (Z.eqb_spec pc 42) as [->|]; [intros H; injection H as ->; reflexivity|].
+  destruct (Z.eqb_spec pc 91).
+  { destruct (split_close p') as [[inner rest]|]; [destruct (class_ok inner tc)|]; discriminate. }
   destruct (Z.eqb_spec pc 92); cbn [andb negb is_nil].
   - destruct p' as [|q p'']; cbn [andb negb is_nil].
     + destruct (pc =? tc); discriminate.
@@ -74,6 +171,10 @@ Proof.
   unfold ps_try. destruct p as [|pc p']; [discriminate|].
   destruct (Z.eqb_spec pc 63); [intros H; injection H as <-; simpl; lia|].
   destruct (Z.eqb_spec pc 42); [discriminate|].
+  destruct (Z.eqb_spec pc 91).
+  { destruct (split_close p') as [[inner rest]|] eqn:E; [|discriminate].
+    destruct (class_ok inner tc); [|discriminate]. intros H; injection H as <-.
+    apply split_close_spec in E as [-> _]. simpl. rewrite app_length. simpl. lia. }
   destruct (Z.eqb_spec pc 92); cbn [andb negb is_nil].
   - destruct p' as [|q p'']; cbn [andb negb is_nil].
     + destruct (pc =? tc); [intros H; injection H as <-; simpl; lia | discriminate].
@@ -86,6 +187,10 @@ Proof.
   unfold ps_try. destruct p as [|pc p']; [discriminate|].
   destruct (Z.eqb_spec pc 63) as [->|N1]; [intros H; injection H as <-; apply GS_any|].
   destruct (Z.eqb_spec pc 42) as [->|N2]; [discriminate|].
+  destruct (Z.eqb_spec pc 91) as [->|N4].
+  { destruct (split_close p') as [[inner rest]|] eqn:E; [|discriminate].
+    destruct (class_ok inner tc) eqn:Ec; [|discriminate]. intros H; injection H as <-.
+    apply split_close_spec in E as [-> Hn]. intros G. apply GS_class; [exact Hn | apply class_ok_iff; exact Ec | exact G]. }
   destruct (Z.eqb_spec pc 92) as [->|N3]; cbn [andb negb is_nil].
   - destruct p' as [|q p'']; cbn [andb negb is_nil].
     + destruct (Z.eqb_spec 92 tc) as [<-|]; [|discriminate].
@@ -105,6 +210,11 @@ Proof.
   destruct (Z.eqb_spec pc 63) as [->|N1].
   { intros H; injection H as <-. intros G. inversion G; subst; try congruence. eauto. }
   destruct (Z.eqb_spec pc 42) as [->|N2]; [discriminate|].
+  destruct (Z.eqb_spec pc 91) as [->|N4].
+  { destruct (split_close p') as [[inner rest]|] eqn:E; [|discriminate].
+    destruct (class_ok inner tc); [|discriminate]. intros H; injection H as <-. intros G.
+    destruct (class_inv _ _ G) as (inner0 & p0 & c & s' & -> & -> & Hn & _ & G').
+    rewrite (split_close_app _ _ Hn) in E. injection E as <- <-. eauto. }
   destruct (Z.eqb_spec pc 92) as [->|N3]; cbn [andb negb is_nil].
   - destruct p' as [|q p'']; cbn [andb negb is_nil].
     + destruct (Z.eqb_spec 92 tc) as [<-|]; [|discriminate].
@@ -121,6 +231,10 @@ Proof.
   unfold ps_try. destruct p as [|pc p']; [intros _ G; inversion G|].
   destruct (Z.eqb_spec pc 63) as [->|N1]; [discriminate|].
   destruct (Z.eqb_spec pc 42) as [->|N2]; [discriminate|].
+  destruct (Z.eqb_spec pc 91) as [->|N4].
+  { intros H G. destruct (class_inv _ _ G) as (inner0 & p0 & c & s' & -> & Es & Hn & Ha & _).
+    injection Es as <- <-. rewrite (split_close_app _ _ Hn) in H.
+    apply class_ok_iff in Ha. rewrite Ha in H. discriminate. }
   destruct (Z.eqb_spec pc 92) as [->|N3]; cbn [andb negb is_nil].
   - destruct p' as [|q p'']; cbn [andb negb is_nil].
     + destruct (Z.eqb_spec 92 tc) as [<-|N]; [discriminate|].
